@@ -207,17 +207,19 @@ inductive DirCheck where
   | done (tc : SCEV)
   deriving Repr
 
-def directionCheck (isNEQ isUpCounting : Bool) (iv : InductionVariable) (limit : SCEV) : DirCheck :=
+def directionCheck (isNEQ isUpCounting isInclusive : Bool) (iv : InductionVariable) (limit : SCEV) : DirCheck :=
   let zero := SCEV.const 0
   match iv.start.evalNil, limit.evalNil, iv.step.evalNil with
   | some startC, some limitC, some stepC =>
     if !isNEQ then
       if isUpCounting then
-        if startC ≥ limitC then .done zero
+        -- with `<=` the loop still runs once when start = limit (fix "an inclusive loop test with
+        -- equal constant bounds runs once")
+        if startC > limitC || (startC == limitC && !isInclusive) then .done zero
         else if stepC ≤ 0 then .done (.unknown none false)
         else .proceed
       else
-        if startC ≤ limitC then .done zero
+        if startC < limitC || (startC == limitC && !isInclusive) then .done zero
         else if stepC ≥ 0 then .done (.unknown none false)
         else .proceed
     else
@@ -232,6 +234,27 @@ def stepSignOk (isNEQ isUpCounting : Bool) (iv : InductionVariable) : Bool :=
     match iv.step.evalNil with
     | none => false
     | some stepC => if isUpCounting then decide (0 < stepC) else decide (stepC < 0)
+
+/-- the comparison that holds when the FALSE successor is the one that stays in the loop -/
+def negateCmp (op : String) : Option String :=
+  if op == "<" then some ">="
+  else if op == "<=" then some ">"
+  else if op == ">" then some "<="
+  else if op == ">=" then some "<"
+  else if op == "==" then some "!="
+  else none
+
+/-- (isUpCounting, isInclusive, isNEQ) for a continue condition `iv op limit` -/
+def cmpFlags (op : String) : Option (Bool × Bool × Bool) :=
+  if op == "<" then some (true, false, false)
+  else if op == "<=" then some (true, true, false)
+  else if op == ">" then some (false, false, false)
+  else if op == ">=" then some (false, true, false)
+  else if op == "!=" then some (false, false, true)
+  else none
+
+/-- `limit op iv` read as a condition on iv: the direction flips, inclusiveness stays -/
+def flipForRight (isNEQ isUp0 : Bool) : Bool := if !isNEQ then !isUp0 else isUp0
 
 /-- `deriveTripCount(loop)` -/
 def deriveTripCount (f : Func) (l : Loop) : Loop :=
@@ -254,27 +277,14 @@ def deriveTripCount (f : Func) (l : Loop) : Loop :=
             let trueStays := l.contains sT
             let falseStays := l.contains sF
             if trueStays && !falseStays then some binOp.op
-            else if !trueStays && falseStays then
-              (if binOp.op == "<" then some ">="
-               else if binOp.op == "<=" then some ">"
-               else if binOp.op == ">" then some "<="
-               else if binOp.op == ">=" then some "<"
-               else if binOp.op == "==" then some "!="
-               else none)
+            else if !trueStays && falseStays then negateCmp binOp.op
             else none
           | _ => none
         match effOp? with
         | none => { l with tripCount := some (.unknown none false) }
         | some op =>
         -- (isUpCounting, isInclusive, isNEQ); ivOnLeft is computed by Go but never read
-        let flags? : Option (Bool × Bool × Bool) :=
-          if op == "<" then some (true, false, false)
-          else if op == "<=" then some (true, true, false)
-          else if op == ">" then some (false, false, false)
-          else if op == ">=" then some (false, true, false)
-          else if op == "!=" then some (false, false, true)
-          else none
-        match flags? with
+        match cmpFlags op with
         | none => { l with tripCount := some (.unknown none false) }
         | some (isUp0, isInclusive, isNEQ) =>
           let findIV := fun (v : Option Val) =>
@@ -289,7 +299,7 @@ def deriveTripCount (f : Func) (l : Loop) : Loop :=
             | some iv => some (iv, binOp.opVal 1, isUp0)
             | none =>
               match findIV (binOp.opVal 1) with
-              | some iv => some (iv, binOp.opVal 0, if !isNEQ then !isUp0 else isUp0)
+              | some iv => some (iv, binOp.opVal 0, flipForRight isNEQ isUp0)
               | none => none
           match found? with
           | none => l
@@ -300,7 +310,7 @@ def deriveTripCount (f : Func) (l : Loop) : Loop :=
             | some limit =>
               let (limitSCEV, l) := toSCEV f l limit
               if !limitSCEV.isLoopInvariant f l then l else
-              match directionCheck isNEQ isUpCounting iv limitSCEV with
+              match directionCheck isNEQ isUpCounting isInclusive iv limitSCEV with
               | .done tc => { l with tripCount := some tc }
               | .proceed =>
                 if !stepSignOk isNEQ isUpCounting iv then
